@@ -342,7 +342,7 @@ Proof.
       * split.
         { intros x w Hx. rewrite Hcur. rewrite Hro, in_app_iff in Hx. destruct Hx as [Hx|[Hx|[]]].
           - apply (F1 x w); auto.
-          - inversion Hx; subst. reflexivity. }
+          - inversion Hx; subst. apply eqv_refl. }
         split.
         { intros x w Hx Hm. rewrite Hst. rewrite Hro, in_app_iff in Hx. destruct Hx as [Hx|[Hx|[]]].
           - apply (F2 x w); auto.
